@@ -1,6 +1,8 @@
 #!/bin/bash
 # usage: run_seed.sh <seed-id> <property-id> [tier]   — apply seeded patch to /repo, run the check, undo
 S=$1; P=$2; T=${3:-quick}
+# /repo is shared with long thorough runs: take the repo lock for the whole apply-run-undo cycle
+if [ -z "$REPO_LOCKED" ]; then mkdir -p /verif/build; REPO_LOCKED=1 exec flock /verif/build/repo.lock "$0" "$@"; fi
 cd /repo || exit 2
 if ! git apply --check /verif/seeded/$S/patch.diff 2>/dev/null; then
   if ! git apply --3way /verif/seeded/$S/patch.diff >/dev/null 2>&1; then echo "SEED $S: patch does not apply to current /repo"; git checkout -- . ; git reset -q; exit 3; fi
